@@ -22,7 +22,7 @@ from fiddle import arg_factory
 from fiddle.experimental import auto_config
 from harness import targets
 from harness.c11lib import base
-from harness.c11lib.base import Enc, Dec, relu, scale, plain_helper, inner_inline, inner_opaque, fresh_enc
+from harness.c11lib.base import Enc, Dec, relu, scale, plain_helper, inner_inline, inner_opaque, fresh_enc, dims, QuotaError
 import logging
 _LOG = logging.getLogger('c11_generated')
 
@@ -98,7 +98,16 @@ class ProgGen:
       return f'auto_config.with_tags({self.call(depth)}, targets.T1)'
     if x < 0.94:
       return r.choice([f'Dec.make({e()})', f'Dec.helper({e()})', f'base.Dec.make(enc={e()})'])
-    if r.random() < 0.35:
+    y = r.random()
+    if y < 0.2:
+      # an argument factory whose bound arguments are all positional (*args of the factory)
+      return r.choice(['arg_factory.partial(Dec, enc=functools.partial(dims, 3, 4))',
+                       f'arg_factory.partial(Dec, opts=functools.partial(dims, {e()}))',
+                       'arg_factory.partial(Dec, enc=functools.partial(dims, 1, scale_by=2), width=5)'])
+    if y < 0.35:
+      # a user-defined exception class constructed as a value
+      return r.choice([f'QuotaError({e()})', "Dec(enc=QuotaError('q', limit=3))", 'QuotaError()'])
+    if y < 0.6:
       # an auto_config function used as an argument factory of a partial: evaluated anew per call
       return r.choice(['arg_factory.partial(Dec, enc=fresh_enc)', 'arg_factory.partial(Dec, enc=fresh_enc, width=3)',
                        'arg_factory.partial(Dec, opts=list, enc=fresh_enc)'])
